@@ -749,6 +749,325 @@ def run_session(ctx, rng, steps):
 
 
 # ----------------------------------------------------------------------------
+# sizes: the property is stated for ALL n >= 1 forecasts and ALL m >= 1 members.  The Coq
+# correspondence (vm_compute) and the Fraction oracle above stop at n <= 160, m <= 64, so every
+# size-dependent branch or integer computation of the code (n*n, n*(n-1)/2, m*m, n*m, 16/32-bit
+# counters, "use another algorithm above N") is outside what they exercise.  This class runs the
+# implementation on LONG records (n up to 1e5, thorough 2e5: around 2^15, sqrt(2^31), 2^16,
+# sqrt(2^33) and in between), WIDE ensembles (the same ladder for m) and moderately large n x m
+# tables, and judges the clauses with an exact integer oracle that costs O(nm log m + n log n):
+# definition, uncertainty = CRPS of the observed climatology (sorted-sample formula), the two
+# identities, the three signs, no exception / finite.  Forecasts with a missing observation are
+# part of the class, so that the number of VALID forecasts, or the number handed in, sits on a
+# boundary.
+#
+# Tolerances.  definition / identities: 1e-9*max|value| as elsewhere (the a, b accumulators take
+# n terms, the final sums m+1 terms: n*2^-53 << 1e-9).  uncertainty: the code may add the
+# N = n(n-1)/2 non-negative pair terms in any order; the a-priori bound of a floating point sum
+# of N non-negative terms is N * 2^-53 * sum, so the tolerance is 1e-9*max|value| + 1.01 * (N+8)
+# * 2^-53 * exact value (1.2e-7 relative at n = 46341, 5.5e-7 at n = 1e5): any re-association
+# of the pair loop passes, a wrong divisor / a dropped or doubled pair block does not.
+
+N_LADDER = [182, 257, 1000, 1291, 4096, 10000, 32767, 32768, 32769]           # cheap (<= 0.4 s each)
+N_EDGES = [[46341, 46340, 46342], [65536, 65535, 65537], [100000, 92682, 92683]]  # first of each: always
+EDGE_FIRST = {46341, 65536, 65537, 92683, 100000}       # first case of each: exactly n valid forecasts
+M_LADDER = [100, 181, 182, 255, 256, 257, 1000, 1290, 1291, 4096, 32767, 32768, 32769,
+            46340, 46341, 46342, 65535, 65536, 65537, 92683, 100000]
+SQUARES = [(256, 256), (257, 257), (255, 258), (64, 1025), (1025, 64), (300, 1000), (1000, 300), (1500, 1500)]
+SQUARES_THOROUGH = [(2000, 2000), (4097, 4097), (8192, 2049), (2049, 8192), (40000, 50), (50, 40000)]
+L_INT_KINDS = ["lattice", "lattice", "coarse", "qgauss", "qgauss", "qgauss"]
+L_FLOAT_KINDS = ["gauss", "gauss", "skew"]
+L_SHAPES = ["plain", "plain", "plain", "below", "above", "const-ens", "obs-on-member", "sorted", "all-equal"]
+L_NAN = ["none", "none", "none", "extra", "extra", "within", "nanrow"]
+L_LAYOUTS = ["C", "C", "F", "frame", "obs-column"]
+OBJECT_PATH_MAX = 400000     # values (tables: 70000); above: only kinds whose exact integers fit int64
+
+
+def gen_large_recipe(rng, n, m, degenerate_ok=True, valid_exact=False):
+    """the description of one large case; the data are a deterministic function of it.
+    `valid_exact`: the number of VALID forecasts is exactly n (missing ones only added)"""
+    kinds = L_INT_KINDS + (L_FLOAT_KINDS if n * (m + 1) <= (OBJECT_PATH_MAX if min(n, m) <= 8 else 70000) else [])
+    shape = rng.choice(L_SHAPES)
+    if shape == "all-equal" and not degenerate_ok:
+        shape = "plain"
+    nan = rng.choice(L_NAN)
+    if valid_exact and nan in ("within", "nanrow"):
+        nan = rng.choice(["none", "extra"])
+    if n < 4:
+        nan = "none" if nan in ("within", "nanrow") else nan
+    return {"n": n, "m": m, "kind": rng.choice(kinds), "shape": shape, "nan": nan,
+            "n_nan": rng.choice([1, 2, 3, 7, 100]) if nan != "none" else 0,
+            "scale_exp": rng.choice([0, 0, 0, -10, 10, -40, 40]),
+            "scale": rng.choice([1.0, 1.0, 1e-3, 1e3, 1e6, 1e-12]),
+            "shift": rng.choice([0, 0, 0, 100, -10000]),
+            "layout": rng.choice(L_LAYOUTS), "seed": rng.randrange(1 << 30)}
+
+
+def build_large(rec):
+    """-> (obs [ntot] float64, ens [ntot, m] float64).  `n` of the recipe is the number of valid
+    forecasts for nan in (none, extra), the number handed in for (within, nanrow)."""
+    g = np.random.Generator(np.random.PCG64(rec["seed"]))
+    n, m, kind = rec["n"], rec["m"], rec["kind"]
+    unit = 2.0 ** rec["scale_exp"]
+
+    def draw(shape):
+        if kind == "lattice":        # dyadic lattice: exact ties everywhere
+            return g.integers(-8, 9, size=shape).astype(np.float64) * (unit / 4) + rec["shift"] * unit
+        if kind == "coarse":         # {-1, -0, 0, 1}
+            v = g.integers(-1, 2, size=shape).astype(np.float64) * unit
+            neg = (v == 0) & (g.random(size=shape) < 0.3)
+            return np.where(neg, -0.0, v)
+        if kind == "qgauss":         # Gaussian rounded to 2^-20: few ties, exact integers in the oracle
+            return (np.rint(g.standard_normal(size=shape) * 2.0 ** 20) * (unit * 2.0 ** -20)
+                    + rec["shift"] * unit)
+        if kind == "gauss":
+            return g.standard_normal(size=shape) * rec["scale"] + float(rec["shift"])
+        return np.exp(g.standard_normal(size=shape) * 2.0) * rec["scale"]      # skew
+    obs = draw(n)
+    ens = draw((n, m))
+    pad = unit / 4 if kind in ("lattice", "coarse", "qgauss") else rec["scale"] * 1e-3
+    shape = rec["shape"]
+    if shape == "below":             # every observation below its whole ensemble
+        obs = ens.min(axis=1) - np.abs(draw(n) - (draw(n))) - pad
+    elif shape == "above":
+        obs = ens.max(axis=1) + np.abs(draw(n) - (draw(n))) + pad
+    elif shape == "const-ens":
+        ens = np.repeat(ens[:, :1], m, axis=1)
+    elif shape == "obs-on-member":
+        r = g.random(size=n)
+        pick = ens[np.arange(n), g.integers(0, m, size=n)]
+        obs = np.where(r < 0.3, ens.min(axis=1), np.where(r < 0.6, ens.max(axis=1), pick))
+    elif shape == "all-equal":       # the same forecast repeated, constant observation
+        ens = np.repeat(ens[:1, :], n, axis=0)
+        obs = np.full(n, obs[0])
+    elif shape == "sorted":
+        ens = np.sort(ens, axis=1)
+        if rec["seed"] & 1:
+            ens = ens[:, ::-1]
+    ens = np.ascontiguousarray(ens, dtype=np.float64)
+    obs = np.ascontiguousarray(obs, dtype=np.float64)
+    k = min(rec.get("n_nan", 0), max(0, n - 1))
+    if rec["nan"] == "extra" and rec.get("n_nan", 0):     # k more forecasts, observation missing
+        k = rec["n_nan"]
+        pos = np.sort(g.integers(0, n + 1, size=k))
+        obs = np.insert(obs, pos, np.nan)
+        ens = np.insert(ens, pos, draw((k, m)), axis=0)
+    elif rec["nan"] == "within" and k:
+        obs[g.choice(n, size=k, replace=False)] = np.nan
+    elif rec["nan"] == "nanrow" and k:               # rows whose members are all missing
+        ens[g.choice(n, size=k, replace=False), :] = np.nan
+    return obs, ens
+
+
+def run_impl_arrays(obs, ens, layout="C"):
+    """public API on arrays -> (decomposition[5], None) or (None, exception text)"""
+    from hydrodiy.stat import metrics
+    o, e = obs, ens
+    if layout == "F":
+        e = np.asfortranarray(ens)
+    elif layout == "frame":
+        import pandas as pd
+        o, e = pd.Series(obs), pd.DataFrame(ens)
+    elif layout == "obs-column" and obs.shape[0] >= 2:
+        o = obs.reshape(-1, 1)
+    try:
+        with np.errstate(all="ignore"):
+            dec, _tab = metrics.crps(o, e)
+    except Exception as ex:      # noqa: BLE001
+        return None, f"{type(ex).__name__}: {str(ex)[:160]}"
+    return [float(x) for x in np.asarray(dec.values, dtype=np.float64)], None
+
+
+def _common_exponent(arrs):
+    """E such that every finite value of the arrays is an integer multiple of 2^E (the largest
+    such E), and the largest |value| / 2^E; (None, 0) when all values are zero"""
+    emin, top = None, 0.0
+    for a in arrs:
+        a = np.abs(a[np.isfinite(a) & (a != 0)])
+        if a.size == 0:
+            continue
+        mant, ex = np.frexp(a)
+        mi = np.ldexp(mant, 53).astype(np.int64)             # exact: 53-bit integers
+        low = (mi & -mi).astype(np.float64)                  # lowest set bit (a power of two)
+        tz = np.frexp(low)[1] - 1
+        e = int((ex.astype(np.int64) - 53 + tz).min())
+        emin = e if emin is None else min(emin, e)
+        top = max(top, float(a.max()))
+    if emin is None:
+        return None, 0.0
+    try:
+        return emin, math.ldexp(top, -emin)
+    except OverflowError:
+        return emin, float("inf")
+
+
+def exact_large(obs, ens):
+    """exact (crps by the definition, CRPS of the observed climatology) of the valid forecasts as
+    Fractions, by integer arithmetic: every value is k * 2^E.  int64 numpy when the sums fit,
+    Python integers otherwise.  Independent of the library."""
+    n, m = ens.shape
+    E, top = _common_exponent([obs, ens])
+    if E is None:
+        return Fr(0), Fr(0)
+    unit = Fr(2) ** E
+    coef = 2 * np.arange(m, dtype=np.int64) - m + 1
+    if top * 4.0 * max(m * m, n) < 2.0 ** 62:
+        io = np.ldexp(obs, -E).astype(np.int64)
+        ie = np.ldexp(ens, -E).astype(np.int64)
+        if not (np.array_equal(np.ldexp(io.astype(np.float64), E), obs)
+                and np.array_equal(np.ldexp(ie.astype(np.float64), E), ens)):
+            raise AssertionError("oracle: integer image of the inputs is not exact")
+        A = np.abs(ie - io[:, None]).sum(axis=1)             # sum_k |x_k - y|
+        P = np.sort(ie, axis=1) @ coef                       # sum_{k<l} |x_k - x_l|
+        num = sum(int(v) for v in (m * A - P))
+        so = [int(v) for v in np.sort(io)]
+    else:
+        def to_int(v):
+            a, b = float(v).as_integer_ratio()       # b = 2^s
+            sh = -(b.bit_length() - 1) - E
+            if sh >= 0:
+                return a << sh
+            if a & ((1 << -sh) - 1):
+                raise AssertionError("oracle: value is not a multiple of the common unit")
+            return a >> -sh
+        so = sorted(to_int(v) for v in obs)
+        num = 0
+        for i in range(n):
+            y = to_int(obs[i])
+            xs = sorted(to_int(v) for v in ens[i])
+            num += m * sum(abs(x - y) for x in xs) - sum((2 * k - m + 1) * x for k, x in enumerate(xs))
+    pu = sum((2 * k - n + 1) * y for k, y in enumerate(so))
+    return Fr(num, n * m * m) * unit, Fr(pu, n * n) * unit
+
+
+def oracle_large(obs, ens, dec, exc):
+    """-> list of (clause, what) on the valid forecasts of (obs, ens)"""
+    ok = ~np.isnan(obs) & ~np.isnan(ens).all(axis=1)
+    vo, ve = obs[ok], ens[ok]
+    n, m = ve.shape
+    if n == 0 or np.isnan(ve).any():
+        return []
+    if dec is None:
+        return [("valid-input-rejected", f"crps raised {exc} for {n} valid forecast(s) with {m} member(s)")]
+    d = dict(zip(NAMES, dec))
+    if any(math.isnan(v) or math.isinf(v) for v in dec):
+        return [("not-finite", f"decomposition {d} is not finite (n={n}, m={m})")]
+    S = float(max(np.abs(vo).max(), np.abs(ve).max()))
+    tol = TOL * S
+    want, wantu = exact_large(vo, ve)
+    fw, fu = float(want), float(wantu)
+    fails = []
+    if abs(Fr(d["crps"]) - want) > tol:
+        fails.append(("definition", f"crps={d['crps']!r} but mean(E|X-y| - 0.5 E|X-X'|)={fw!r} (n={n}, m={m})"))
+    npairs = n * (n - 1) // 2
+    tolu = tol + 1.01 * (npairs + 8) * 2.0 ** -53 * fu
+    if abs(Fr(d["uncertainty"]) - wantu) > tolu:
+        fails.append(("uncertainty-climatology",
+                      f"uncertainty={d['uncertainty']!r} but the CRPS of the observed climatology is {fu!r} "
+                      f"(n={n} forecasts, tolerance {tolu:.3g})"))
+    if abs(d["crps"] - (d["reliability"] + d["potential"])) > tol:
+        fails.append(("identity-reliability-potential",
+                      f"crps={d['crps']!r} != reliability+potential={d['reliability'] + d['potential']!r} "
+                      f"(n={n}, m={m})"))
+    if abs(d["resolution"] - (d["uncertainty"] - d["potential"])) > tol:
+        fails.append(("identity-resolution",
+                      f"resolution={d['resolution']!r} != uncertainty-potential="
+                      f"{d['uncertainty'] - d['potential']!r} (n={n}, m={m})"))
+    for k in ("reliability", "potential", "uncertainty"):
+        if d[k] < 0:
+            fails.append((f"negative-{k}", f"{k}={d[k]!r} is negative (n={n} forecasts, m={m} members)"))
+    return fails
+
+
+def _smallest_failing_prefix(obs, ens, clause, budget_s=25.0):
+    """smallest number of leading forecasts of this input on which the same clause still fails
+    (bisection: a boundary, the clause holds on one forecast less); None when not found in time"""
+    import time
+    t0 = time.time()
+
+    def fails(k):
+        dec, exc = run_impl_arrays(obs[:k], ens[:k])
+        return any(c == clause for c, _ in oracle_large(obs[:k], ens[:k], dec, exc))
+    lo, hi = 1, obs.shape[0]
+    if not fails(hi):          # (the failure needs the layout / container of the original call)
+        return None
+    if fails(lo):
+        return lo
+    while hi - lo > 1:
+        if time.time() - t0 > budget_s:
+            return None
+        mid = (lo + hi) // 2
+        if fails(mid):
+            hi = mid
+        else:
+            lo = mid
+    return hi
+
+
+def large_check(ctx, rec, cls):
+    """one large case; returns True when a failure was reported"""
+    obs, ens = build_large(rec)
+    cm.mark({"call": "metrics.crps (large size)", "recipe": rec})
+    dec, exc = run_impl_arrays(obs, ens, rec.get("layout", "C"))
+    ctx.count(("large", cls, rec["kind"], rec["shape"], rec["nan"], rec.get("layout")))
+    bad = False
+    for clause, what in oracle_large(obs, ens, dec, exc):
+        bad = True
+        key = f"C03/crps/large-size/{clause}"
+        replay = {"large_recipe": rec, "class": cls,
+                  "input_class": "long record / wide ensemble (data = build_large(recipe), deterministic)",
+                  "forecasts_handed_in": int(obs.shape[0]), "members": int(ens.shape[1]),
+                  "valid_forecasts": int((~np.isnan(obs) & ~np.isnan(ens).all(axis=1)).sum()),
+                  "obs_head": obs[:8].tolist(), "ens_head": ens[:4, :8].tolist(),
+                  "output": None if dec is None else dict(zip(NAMES, dec)), "exception": exc}
+        if key not in ctx._viol_keys:
+            if obs.size + ens.size <= 300000:
+                replay["obs"], replay["ens"] = obs.tolist(), ens.tolist()
+            if obs.shape[0] > 64:
+                k = _smallest_failing_prefix(obs, ens, clause)
+                if k is not None:
+                    replay["smallest_failing_prefix"] = k
+                    what += f"; on this input the clause fails for the first {k} forecasts and holds for the first {k - 1}"
+        ctx.failure(key, replay,
+                    f"{cls} ({rec['kind']} values, shape {rec['shape']}, missing: {rec['nan']}, "
+                    f"{obs.shape[0]} forecasts x {ens.shape[1]} members, seed {rec['seed']}): {what}")
+    return bad
+
+
+def large_plan(rng, thorough, deep):
+    """[(class, n, m)] - `deep`: the proofs / the ties are broken, search every edge.
+    Cost of a long record: n^2/2 pair terms in the code (1 s at 46341, 4-5 s at 1e5)."""
+    plan = []
+    small_m = lambda: rng.choice([1, 1, 2, 3, rng.randint(4, 8)])      # noqa: E731
+    small_n = lambda: rng.choice([1, 1, 2, 3, rng.randint(4, 6)])      # noqa: E731
+    full = thorough or deep
+    for _ in range(2 if thorough else 1):
+        for n in N_LADDER:
+            if full or n not in (32767, 32769):
+                plan.append(("long record", n, small_m()))
+        if not full:
+            plan.append(("long record", rng.choice([32767, 32769]), small_m()))
+        for _ in range(2):      # log-uniform in between
+            plan.append(("long record", int(math.exp(rng.uniform(math.log(46), math.log(32766)))), small_m()))
+        for m in M_LADDER:
+            plan.append(("wide ensemble", small_n(), m))
+        for _ in range(2):
+            plan.append(("wide ensemble", small_n(), int(math.exp(rng.uniform(math.log(13), math.log(100000))))))
+        for n, m in SQUARES + (SQUARES_THOROUGH if thorough else []):
+            plan.append(("large table", n, m))
+    if full:
+        ns = [n for edge in N_EDGES for n in edge] + [rng.randint(46343, 65534), rng.randint(65538, 92681)]
+    else:
+        ns = [46341, rng.choice([46340, 46342]), rng.choice([65536, 65536, 65537, 65535]),
+              rng.randint(46343, 65534), rng.choice([92683, 100000])]
+    if thorough:
+        ns += [131072, 200000, rng.randint(100001, 200000)]
+    for n in ns:
+        plan.append(("long record", n, small_m()))
+    return plan
+
+
+# ----------------------------------------------------------------------------
 
 def signature(case, out):
     n, m = len(case["obs"]), len(case["ens"][0])
@@ -776,6 +1095,15 @@ def run(ctx):
                 "lists), calls interleaved with in-place changes of the same objects (all / observations / members "
                 "rewritten, one value, NaN observation, shift, rows sorted), calls of pit and of other pairs in "
                 "between, results kept and re-read after later calls; "
+                "sizes (oracle only, exact integer arithmetic): long records n in {182, 257, 1000, 1291, 4096, 1e4, "
+                "32767..32769, 46340..46342, 65535..65537, 92682/92683, 1e5, log-uniform 46..32766, uniform "
+                "46343..65534 (thorough / broken proof: all of them, 65538..92681, thorough also 131072, 2e5, "
+                "1e5..2e5)} x m in 1..8; wide ensembles m in {100, 181, 182, 255..257, 1000, 1290, 1291, 4096, "
+                "32767..32769, 46340..46342, 65535..65537, 92683, 1e5, log-uniform 13..1e5} x n in 1..6; tables "
+                "256x256 .. 1500x1500 (thorough 4097x4097, 8192x2049, 40000x50) x dyadic lattice / {-1,-0,0,1} / "
+                "Gaussian rounded to 2^-20 with scale 2^-40..2^40 and offsets / Gaussian and log-normal with scale "
+                "1e-12..1e6 x the shapes above x missing observations added to or inside the record, all-NaN member "
+                "rows x C / Fortran / Series+DataFrame / [n,1] observations; "
                 "non-trivial = distinct (shape+missing tag, value kind, n class, m class, error) signature or "
                 "(stored form, storage types) signature")
     ctx.trusted = cm.STD_TRUST + [
@@ -788,7 +1116,11 @@ def run(ctx):
         "Python wrapper glue (atleast_1d/astype/squeeze, Series/DataFrame labels read by name)",
         "independence of the stored form of the inputs (storage type, layout, container, index) and of earlier "
         "calls / in-place changes of the same objects; results returned earlier do not change - tested with the "
-        "exact rational oracle on the values held"]
+        "exact rational oracle on the values held",
+        "long records / wide ensembles / large tables (n, m beyond 160 x 64, up to 1e5, thorough 2e5): definition, "
+        "uncertainty = climatological CRPS, both identities, signs - tested on the implementation with an exact "
+        "integer oracle (sorted-sample formula); the model is not run at these sizes.  The C-level theorems "
+        "(C03_kernel_crps_refines_model*) are about MiniC with unbounded integers (overflow not modelled)"]
     proved = cm.prove_with_kernels(ctx, ["c_crps"])
     cm.use_impl()
     rng = ctx.rng
@@ -899,6 +1231,22 @@ def run(ctx):
     for _ in range(nsess):
         run_session(ctx, rng, gen_session(rng, ctx.thorough))
     ctx.notes["sessions"] = nsess
+    # long records / wide ensembles / large tables, judged by the exact integer oracle
+    deep = (not proved) or bool(bad) or bool(failed) or ctx.violation_count > 0
+    if isinstance(rp, dict) and isinstance(rp.get("replay", rp), dict) and "large_recipe" in rp.get("replay", rp):
+        r = rp.get("replay", rp)
+        large_check(ctx, r["large_recipe"], r.get("class", "replay"))
+    plan = large_plan(rng, ctx.thorough, deep)
+    import time
+    t_large = time.time()
+    seen = set()
+    for cls, n, m in plan:
+        large_check(ctx, gen_large_recipe(rng, n, m, degenerate_ok=(n < 40000 or ctx.thorough),
+                                          valid_exact=(n in EDGE_FIRST and n not in seen)), cls)
+        seen.add(n)
+    ctx.notes["large_size_cases"] = len(plan)
+    ctx.notes["large_size_wall_s"] = round(time.time() - t_large, 1)
+    ctx.notes["large_size_deep_search"] = deep
     cm.settle(ctx, proved, bad, failed, orc_fail,
               lambda i: {"obs": cases[i]["obs"], "ens": cases[i]["ens"],
                          "impl_output": outs[i], "model": "Hy.Model.Crps.cr_ok"},
